@@ -252,7 +252,11 @@ func scenario(c cfg) sched.Scenario {
 			return cls, fmt.Sprintf("cache reports %d bytes used in %d entries, holds %d bytes in %d files (%+v)", res.Reported, res.MapLen, res.CacheBytes, len(res.CacheFiles), res)
 		}
 		if res.MapLen < len(res.CacheFiles) {
-			return "accounting:held-object-without-entry", fmt.Sprintf("%+v", res)
+			cls := "accounting:held-object-without-entry"
+			if c.tag != "" {
+				cls += ":" + c.tag
+			}
+			return cls, fmt.Sprintf("cache holds %d files, accounts for %d (%+v)", len(res.CacheFiles), res.MapLen, res)
 		}
 		if res.Reported != res.CacheBytes {
 			return "accounting:reported-size-differs-from-bytes-held", fmt.Sprintf("cache reports %d bytes used, holds %d bytes in %d files (%+v)", res.Reported, res.CacheBytes, len(res.CacheFiles), res)
@@ -302,34 +306,45 @@ func main() {
 	put := func(i int) step { return step{"put", i} }
 	del := func(i int) step { return step{"delete", i} }
 	S, B := 10, 60 // small (< threshold), big (> threshold)
-	q := r.Quick()
+	q := true
 	b := func(quick, thorough int) int {
 		if q {
 			return quick
 		}
 		return thorough
 	}
-	cfgs := []cfg{
-		{"accounting: same object put twice, no flush tick", []int{S}, [][]step{{put(0), put(0)}}, 1, 0, 2, b(1, 2), 0, false, "", false},
-		{"accounting: two clients put the same object + another, no flush tick", []int{S, B}, [][]step{{put(0), put(1)}, {put(0)}}, 1, 0, 2, b(1, 2), 0, false, "", false},
-		{"accounting: put, delete, put again, no flush tick", []int{S}, [][]step{{put(0), del(0), put(0)}}, 1, 0, 2, b(1, 2), 0, false, "", false},
-		{"flush: one small + one big, 1 worker", []int{S, B}, [][]step{{put(0), put(1)}}, 1, 6, 2, b(1, 2), b(1, 2), true, "", false},
-		{"flush: same object put twice then flushed", []int{S}, [][]step{{put(0), put(0)}}, 1, 6, 2, b(1, 2), b(1, 2), false, "repeated-put-concurrent-with-flush-of-same-address", false},
-		{"flush: 3 small + 1 big, batch count 2, 1 worker", []int{S, S + 1, S + 2, B}, [][]step{{put(0), put(1), put(2), put(3)}}, 1, 7, 2, b(0, 1), b(1, 2), false, "", false},
-		{"flush vs delete: put 2, delete one while flushing", []int{S, B}, [][]step{{put(0), put(1)}, {del(1)}}, 1, 6, 2, b(1, 2), b(1, 1), false, "", false},
-		{"flush vs delete racing with the put of the same object", []int{S, B}, [][]step{{put(0), put(1)}, {del(1)}}, 1, 6, 2, b(1, 2), 0, false, "delete-concurrent-with-unacknowledged-put-of-same-address", true},
-	}
-	if q {
-		cfgs = append(cfgs,
-			cfg{"flush: 2 small + 1 big, 2 workers, two clients [faults only]", []int{S, S + 1, B}, [][]step{{put(0), put(2)}, {put(1)}}, 2, 6, 2, 0, 1, true, "", false},
-			cfg{"flush: 2 small + 1 big, 2 workers, two clients [schedules only, single phase]", []int{S, S + 1, B}, [][]step{{put(0), put(2)}, {put(1)}}, 2, 6, 2, 1, 0, false, "", false})
-	} else {
-		cfgs = append(cfgs,
-			cfg{"flush: 2 small + 1 big, 2 workers, two clients", []int{S, S + 1, B}, [][]step{{put(0), put(2)}, {put(1)}}, 2, 6, 2, 1, 2, true, "", false})
+	mk := func() []cfg {
+		cfgs := []cfg{
+			{"accounting: same object put twice, no flush tick", []int{S}, [][]step{{put(0), put(0)}}, 1, 0, 2, b(1, 2), 0, false, "", false},
+			{"accounting: two clients put the same object + another, no flush tick", []int{S, B}, [][]step{{put(0), put(1)}, {put(0)}}, 1, 0, 2, b(1, 2), 0, false, "", false},
+			{"accounting: put, delete, put again, no flush tick", []int{S}, [][]step{{put(0), del(0), put(0)}}, 1, 0, 2, b(1, 2), 0, false, "", false},
+			{"flush: one small + one big, 1 worker", []int{S, B}, [][]step{{put(0), put(1)}}, 1, 6, 2, b(1, 2), b(1, 2), true, "", false},
+			{"flush: same object put twice then flushed", []int{S}, [][]step{{put(0), put(0)}}, 1, 6, 2, b(1, 2), b(1, 2), false, "repeated-put-concurrent-with-flush-of-same-address", false},
+			{"flush: 3 small + 1 big, batch count 2, 1 worker", []int{S, S + 1, S + 2, B}, [][]step{{put(0), put(1), put(2), put(3)}}, 1, 7, 2, b(0, 1), b(1, 2), false, "", false},
+			{"flush vs delete: put 2, delete one while flushing", []int{S, B}, [][]step{{put(0), put(1)}, {del(1)}}, 1, 6, 2, b(1, 2), b(1, 1), false, "", false},
+			{"flush vs delete racing with the put of the same object", []int{S, B}, [][]step{{put(0), put(1)}, {del(1)}}, 1, 6, 2, b(1, 2), 0, false, "delete-concurrent-with-unacknowledged-put-of-same-address", true},
+		}
+		if q {
+			cfgs = append(cfgs,
+				cfg{"flush: 2 small + 1 big, 2 workers, two clients [faults only]", []int{S, S + 1, B}, [][]step{{put(0), put(2)}, {put(1)}}, 2, 6, 2, 0, 1, true, "", false},
+				cfg{"flush: 2 small + 1 big, 2 workers, two clients [schedules only, single phase]", []int{S, S + 1, B}, [][]step{{put(0), put(2)}, {put(1)}}, 2, 6, 2, 1, 0, false, "", false})
+		} else {
+			cfgs = append(cfgs,
+				cfg{"flush: 2 small + 1 big, 2 workers, two clients", []int{S, S + 1, B}, [][]step{{put(0), put(2)}, {put(1)}}, 2, 6, 2, 1, 2, true, "", false})
+		}
+		return cfgs
 	}
 	var scs []sched.Scenario
-	for _, c := range cfgs {
+	for _, c := range mk() {
 		scs = append(scs, scenario(c))
+	}
+	if r.Thorough() {
+		// deeper bounds after the quick ones (the budget is shared per scenario, leftovers roll on)
+		q = false
+		for _, c := range mk() {
+			c.name += " [deep]"
+			scs = append(scs, scenario(c))
+		}
 	}
 	r.Rule("every schedule within the per-scenario preemption bound x every set of failing main-storage Put/PutBatch calls within the fault bound, each run to quiescence (fair suffix: all threads blocked, ticker exhausted); non-trivial = distinct (scenario, #faults, residual cache files, deleted set) outcome classes")
 	r.Assume("atomics are not scheduling points", "the flush ticker fires a bounded number of times (6-7) per execution, more than preemption bound + fault bound + rounds needed", "defaultErrorDelay sleep is a yield")
